@@ -317,6 +317,20 @@ Section Derive.
     end.
 End Derive.
 
+(* ---------- one message, several address families ----------
+   parseRegMessage builds one registration per address family the message asks
+   for; each is the derivation for that family from the message's secret. *)
+Section Message.
+  Variable hm : bytes -> bytes -> bytes.
+  Variable src : Type.
+  Variable src_seed : Z -> src.
+  Variable src_int63 : src -> N * src.
+  Variable sorter : list group -> list group.
+  Definition station_message (lv : N) (secret : bytes) (cfg : option config) (fams : list family)
+             (t : transport) (wire : option tparams) : list (dres derived) :=
+    map (fun f => station_derive hm src src_seed src_int63 sorter lv secret cfg f t wire) fams.
+End Message.
+
 (* ---------- concrete instances ---------- *)
 Definition station := station_derive hmac_sha256 alfg alfg_seed alfg_int63 isort_groups.
 Definition client := client_derive hmac_sha256 alfg alfg_seed alfg_int63 isort_groups.
